@@ -29,7 +29,7 @@ import ast
 from ..dataflow import is_shared
 from ..lifecycle import Lifecycle
 from ..repo import AnalysisError, FuncInfo, own_nodes
-from .common import reorder_ops
+from .common import reorder_ops, source_pos
 
 MANIFEST = {
     "text": (
@@ -423,7 +423,7 @@ def _numbering(ctx, soa):
     fors = [n for n in own_nodes(soa.node) if isinstance(n, ast.For)]
     if len(fors) != 2:
         raise AnalysisError("set_operation_attributes: two nested loops expected")
-    outer, inner = sorted(fors, key=lambda n: n.lineno)
+    outer, inner = sorted(fors, key=source_pos(soa.node))
 
     def enum(n):
         return (
